@@ -66,8 +66,15 @@ Example C34_stale_sample_refuted :
   WriteQueue.finished s /\ WriteQueue.buf s = [8%N].
 Proof. vm_compute. repeat split; repeat constructor. Qed.
 
+(* the monitor of the transient-write-fault engine (flushfault) means clause 1: when it accepts an observation of a
+   connection that is still open, every packet reported as sent is among the packets written *)
+Theorem C34_fault_monitor_sound : forall reported written,
+  WriteBuf.fault_ok reported written false = true -> forall k, In k reported -> In k written.
+Proof. exact WriteBufProofs.fault_ok_sound. Qed.
+
 Print Assumptions C34_flushed.
 Print Assumptions C34_drops_reported.
 Print Assumptions C34_refusals_reported.
 Print Assumptions C34_write_calls_shape.
 Print Assumptions C34_flushed_all_schedules.
+Print Assumptions C34_fault_monitor_sound.
